@@ -11,7 +11,7 @@ CONSTANTS
   DefSvc = 3
   StarK = 1
   MaxPairs = 2
-  Fills = {"rand"}
+  Fills = {"zero", "ones", "rand"}
   MutVals = {0, 9}
   MutBodies = {0, 1, 300}
   FillTargets = {65535, 65536, 70009}
